@@ -208,7 +208,9 @@ func runCell(id string, c cell) runner.Result {
 			failf("after the fault ServeOne has not returned")
 		}
 		for _, l := range x.Logs() {
-			if l.Stream == nil {
+			// (in every other case the old streams are left alone: a later call on a stream can help it
+			// along, and Close must not depend on the application making one)
+			if l.Stream == nil || c.offset%2 == 1 {
 				continue
 			}
 			stm := l.Stream
